@@ -420,6 +420,7 @@ type stepper struct {
 	nextID  int
 	hold    bool
 	broken  bool
+	timer   time.Duration // > 0: the engine is opened with this (short) CommitEvery, real time is allowed to pass (`tick`)
 }
 
 // aborted is set when the real engine left a call blocked for good (the harness cannot drive it any further): the
@@ -471,7 +472,7 @@ func (s *stepper) open(entries []entry, durable int64, p plan) error {
 	}
 	e, err := sqlite.OpenEngine(sqlite.Options{
 		Path: s.dbPath(), APPID: 0xc17, Scheme: schema, Replica: s.repl, DurabilityMode: mode,
-		CommitEvery: time.Hour, CacheMaxSizePerConnect: 4, MaxROConn: 2,
+		CommitEvery: s.commitEvery(), CacheMaxSizePerConnect: 4, MaxROConn: 2,
 	}, s.m, applyEvents(false, nil), applyEvents(true, nil))
 	if err != nil {
 		s.e = nil
@@ -994,8 +995,28 @@ func (s *stepper) opCrash(d int64, p plan) {
 	}
 }
 
+func (s *stepper) commitEvery() time.Duration {
+	if s.timer > 0 {
+		return s.timer
+	}
+	return time.Hour // the commit timer never fires by itself; the harness calls what txLoop calls (`tx`)
+}
+
+// opTick lets real time pass: several periods of the engine's own CommitEvery timer. In NoWaitCommit mode the engine has no
+// commit timer (OpenEngine starts txLoop only in WaitCommit mode), so nothing may change however long we wait; an engine
+// that does commit here commits without the binlog commit.
+func (s *stepper) opTick() {
+	s.h.Op("tick")
+	s.h.Stat("op.tick", 1)
+	time.Sleep(4 * s.timer)
+	s.dump("noop")
+}
+
 func (s *stepper) randPlan() plan {
 	p := plan{chunk: s.r.Range(1, 3), mid: s.r.Pick(3, 1, 1, 1), fin: !s.r.Chance(1, 6)}
+	if s.timer > 0 {
+		p.mid = 0 // with a short CommitEvery the "time since the last delayed commit" test of Apply would depend on real time
+	}
 	if s.r.Bool() {
 		p.cut = s.r.U64() | 1
 	}
@@ -1050,6 +1071,10 @@ func runStepCase(h *verifx.H, i int, r *verifx.Rng) {
 	case 0:
 		s.wait = true
 	case 1:
+		if r.Chance(2, 3) {
+			s.timer = 3 * time.Millisecond
+			h.Stat("case.nowait-with-short-commit-every", 1)
+		}
 	case 2:
 		s.repl = true
 		s.wait = r.Chance(1, 3)
@@ -1146,7 +1171,10 @@ func runStepCase(h *verifx.H, i int, r *verifx.Rng) {
 				s.opView()
 			}
 		default:
-			weights := []int{10, 2, 1, 2, 2, 2, 6, 4, 3, 1, 3, 2}
+			weights := []int{10, 2, 1, 2, 2, 2, 6, 4, 3, 1, 3, 2, 0}
+			if s.timer > 0 {
+				weights[12] = 5
+			}
 			if !s.wait {
 				weights[7] = 0 // no commit timer in NoWaitCommit mode
 			} else {
@@ -1189,6 +1217,8 @@ func runStepCase(h *verifx.H, i int, r *verifx.Rng) {
 				s.opDoNow(s.newID(), s.randLen(), s.randExtra())
 			case 11:
 				s.opView()
+			case 12:
+				s.opTick()
 			}
 		}
 	}
